@@ -70,6 +70,13 @@ fn string_byte_pos(i: &MInst, b: usize) -> Option<(usize, u32)> {
 pub struct C01;
 
 impl Trace {
+    /// the header's id bound is just a word to the loader and assembler: boundary values must be carried too
+    fn with_boundary_bound(mut self, rng: &mut Rng) -> Trace {
+        if rng.chance(1, 25) {
+            self.stream.header.bound = *rng.pick(&[0u32, 0, 1, 2, 0x7FFF_FFFF, 0x8000_0000, 0xFFFF_FFFF]);
+        }
+        self
+    }
     fn with_extra(mut self, rng: &mut Rng) -> Trace {
         let s = snap();
         if !rng.chance(1, 8) || self.stream.insts.is_empty() {
@@ -289,6 +296,7 @@ impl Property for C01 {
         }
         .with_corruption(rng)
         .with_extra(rng)
+        .with_boundary_bound(rng)
     }
 
     fn execute(t: &Trace, cov: &mut Cov) -> RunOut {
